@@ -222,6 +222,18 @@ def run_C07(ctx):
         spec['ops'] = ops
         case = {'t': 'meta', 'spec': spec, 'spec2': reunit(cyc, spec)}
         eval_meta(ctx, case)
+    # the same objects, re-expressed while in use: an uncontrolled run, the motor's parameter objects converted in
+    # place, a continuation — against the same schedule without the conversions
+    for _ in range(ctx.budget(10, 200)):
+        spec = gen.gen_spec(rng, random_units=True, sl_bias=0.2, optional_data=0.4, currents=rng.random() < 0.8)
+        dt = 2.0 ** -rng.randint(3, 6)
+        o1, _, _ = gen.run_op(rng, dt_si=dt, steps=(4, 12))
+        o2, _, _ = gen.run_op(rng, dt_si=dt, steps=(4, 12))
+        spec['ops'] = [o1, o2]
+        spec2 = copy.deepcopy(spec)
+        for attr, kind in rng.sample(sim_props.REUNIT['motor'], 3):
+            spec2['ops'].insert(1, {'op': 'reunit', 'obj': 0, 'attr': attr, 'unit': rng.choice(list(SI[kind].keys()))})
+        eval_meta(ctx, {'t': 'meta', 'spec': spec, 'spec2': spec2})
     # the inputs that used to fail: worm pressure angles given in every unit, continuation in another time unit
     for pa in (14.5, 20.0, 25.0, 30.0):
         for u in SI['Angle']:
